@@ -1360,3 +1360,20 @@ Proof.
 Qed.
 
 End Proofs.
+
+(* the components of [run_follows_spec], as separate statements *)
+Corollary cache_is_trace_spec P presume plan_of D dev d paus stag rec evs :
+  cache P D (fst (run P presume plan_of D dev (init P D d paus stag rec) evs)) =
+  mcache (mon_run mon0 (trace P presume plan_of D dev (init P D d paus stag rec) evs)).
+Proof. exact (proj1 (run_follows_spec P presume plan_of D dev d paus stag rec evs)). Qed.
+
+Corollary deferred_is_trace_spec P presume plan_of D dev d paus stag rec evs :
+  deferred P D (fst (run P presume plan_of D dev (init P D d paus stag rec) evs)) =
+  mdef (mon_run mon0 (trace P presume plan_of D dev (init P D d paus stag rec) evs)).
+Proof. exact (proj1 (proj2 (proj2 (run_follows_spec P presume plan_of D dev d paus stag rec evs)))). Qed.
+
+(* the trace really is the schedule interleaved with the observations of [run] *)
+Corollary trace_is_run P presume plan_of D dev s evs :
+  obs_of (trace P presume plan_of D dev s evs) = snd (run P presume plan_of D dev s evs) /\
+  evs_of (trace P presume plan_of D dev s evs) = evs.
+Proof. split; [apply trace_obs | apply trace_evs]. Qed.
